@@ -319,7 +319,11 @@ class AliasMixin:
             aliases = [x[0] for x in group_iter]
 
             # a. Single alias: Nothing to resolve, so just store and continue
-            if len(aliases) == 1:
+            # (unless both the alias and the model variable name are
+            # preferred: leave that to the duplicates check, below)
+            if len(aliases) == 1 and not (
+                target in self.preferred_names and aliases[0] in self.preferred_names
+            ):
                 # If the model variable name is preferred, do nothing
                 if target in self.preferred_names:
                     continue
